@@ -28,7 +28,7 @@ LISTINGS = [
     ("both", ["peewee-sqlite-testing.v2.db", "peewee-sqlite.v2.db", "x.y.z"], {False: True, True: True}),
 ]
 BUCKET_META = {
-    "b1": dict(id="b1", created="2020-01-02T03:04:05.678000+00:00", name="Bucket One", type="currentwindow", client="aw-watcher-window", hostname="host", data={"k": [1, {"n": None}], "ü": "x"}),
+    "b1": dict(id="b1", created="2020-01-02T03:04:05.678000+00:00", name="Bucket One", type="currentwindow", client="aw-watcher-window", hostname="host", data={"k": [1, {"n": None}], "ü": "x", "cut": "title cut inside an emoji \ud83d"}),
     "bü-2": dict(id="bü-2", created="1999-12-31T23:59:59+00:00", name=None, type="afkstatus", client="c", hostname="h2", data={}),
     "B1": dict(id="B1", created="2021-01-01T00:00:00+00:00", name="upper", type="t", client="c", hostname="H", data={"case": "upper"}),
 }
@@ -58,7 +58,9 @@ class LegacyStore(AbstractStorage):
     def get_events(self, bucket_id, limit, starttime=None, endtime=None):
         x = LegacyStore.x
         rows = LegacyStore.events[bucket_id]
-        return [C.mk_event(x, r.start, r.dur, {"tag": x.wrap(r.tag)}, id=x.wrap(r.id), aligned=False) for r in rows]
+        # (event data also carries a string with a lone surrogate — a title cut in the middle of an emoji — which
+        # the legacy store holds as an ASCII escape)
+        return [C.mk_event(x, r.start, r.dur, {"tag": x.wrap(r.tag), "cut": "\ud83d"}, id=x.wrap(r.id), aligned=False) for r in rows]
 
     def get_event(self, bucket_id, event_id):
         raise NotImplementedError
